@@ -101,8 +101,117 @@ theorem kind_ctor (ty : String) :
   by_cases h7 : ty = "uint64"; · simp [h1, h2, h3, h4, h5, h6, h7]
   simp [h1, h2, h3, h4, h5, h6, h7]
 
+theorem nm_ne_skip (s : String) (h : (sbytes s == sbytes "zap.Skip") = false) (r : List Val) :
+    Val.beqs (nm s :: r) [nm "zap.Skip"] = false := by
+  simp [Val.beq, nm, h]
+
+/-- `f != zap.Skip()` on what `convertAttrToField` returned -/
+theorem convV_ne_skip (a : SAttr) : evalBin .ne (convV a) skipV = .ok (.bool (!isSkip (convert a))) := by
+  have hs : Val.beqs [nm "zap.Skip"] [nm "zap.Skip"] = true := by simp [Val.beq, nm]
+  have n0 := nm_ne_skip "zap.Bool" (by decide +kernel)
+  have n1 := nm_ne_skip "zap.Duration" (by decide +kernel)
+  have n2 := nm_ne_skip "zap.Float64" (by decide +kernel)
+  have n3 := nm_ne_skip "zap.Int64" (by decide +kernel)
+  have n4 := nm_ne_skip "zap.String" (by decide +kernel)
+  have n5 := nm_ne_skip "zap.Time" (by decide +kernel)
+  have n6 := nm_ne_skip "zap.Uint64" (by decide +kernel)
+  have n7 := nm_ne_skip "zap.Any" (by decide +kernel)
+  have n8 := nm_ne_skip "zap.Inline" (by decide +kernel)
+  have n9 := nm_ne_skip "zap.Object" (by decide +kernel)
+  cases a with
+  | leaf k lv l =>
+    rcases kind_ctor l.ty with ⟨_, hc⟩ | ⟨_, hc⟩ | ⟨_, hc⟩ | ⟨_, hc⟩ | ⟨_, hc⟩ | ⟨_, hc⟩ | ⟨_, hc⟩ | ⟨_, hc⟩ <;>
+      simp [convV, skipV, convert, isSkip, hc, n0, n1, n2, n3, n4, n5, n6, n7, n8, n9]
+  | nilv k lv =>
+    by_cases hk : k = ""
+    · simp [convV, skipV, convert, isSkip, hk, hs]
+    · simp [convV, skipV, convert, isSkip, hk, n0, n1, n2, n3, n4, n5, n6, n7, n8, n9]
+  | group k lv ms =>
+    cases hany : anyContent ms
+    · simp [convV, skipV, convert, isSkip, hany, hs]
+    · by_cases hk : k = "" <;> simp [convV, skipV, convert, isSkip, hany, hk, n0, n1, n2, n3, n4, n5, n6, n7, n8, n9]
+
 theorem convV_resolved (a : SAttr) : convV (resolved a) = convV a := by cases a <;> rfl
 theorem dep_resolved (a : SAttr) : dep (resolved a) = dep a := by cases a <;> rfl
+
+/-! ### the insertion loop is the model's `ins` -/
+
+def itemV : String ⊕ SAttr → Val
+  | .inl g => .list [nm "zap.Namespace", .bytes (sbytes g)]
+  | .inr a => convV a
+
+def itemF : String ⊕ SAttr → Fld
+  | .inl g => .ns g
+  | .inr a => convert a
+
+/-- `Slog.ins` over the attributes themselves -/
+def insItems (p : List String) : List SAttr → List (String ⊕ SAttr) × Bool
+  | [] => ([], false)
+  | a :: r =>
+    if isSkip (convert a) then (.inr a :: (insItems p r).1, (insItems p r).2)
+    else (p.map .inl ++ .inr a :: r.map .inr, true)
+
+theorem converts_eq_map : ∀ as : List SAttr, converts as = as.map convert
+  | [] => rfl
+  | a :: r => by simp [converts, converts_eq_map r]
+
+theorem insItems_is_ins (p : List String) : ∀ as : List SAttr,
+    (insItems p as).1.map itemF = (ins p (converts as)).1 ∧ (insItems p as).2 = (ins p (converts as)).2
+  | [] => by simp [insItems, ins, converts]
+  | a :: r => by
+    obtain ⟨h1, h2⟩ := insItems_is_ins p r
+    cases hs : isSkip (convert a)
+    · simp [insItems, ins, converts, hs, itemF, converts_eq_map, List.map_map, Function.comp_def]
+    · simp [insItems, ins, converts, hs, itemF, h1, h2]
+
+theorem attrFold_true (gs : List Bytes) : ∀ (as : List SAttr) (pre : List Val),
+    as.foldl (attrStep gs) (pre, true) = (pre ++ as.map convV, true)
+  | [], pre => by simp
+  | a :: r, pre => by
+    simp only [List.foldl_cons, attrStep, Bool.not_true, Bool.false_and, Bool.false_eq_true, if_false]
+    rw [attrFold_true gs r]; simp
+
+theorem attrFold_nil : ∀ (as : List SAttr) (acc : List Val × Bool),
+    as.foldl (attrStep []) acc = (acc.1 ++ as.map convV, acc.2)
+  | [], acc => by simp
+  | a :: r, acc => by
+    simp only [List.foldl_cons, attrStep, List.isEmpty_nil, Bool.not_true, Bool.and_false, Bool.false_and,
+      Bool.false_eq_true, if_false]
+    rw [attrFold_nil r]; simp
+
+theorem attrFold_false (p : List String) (hp : p ≠ []) : ∀ (as : List SAttr) (pre : List Val),
+    as.foldl (attrStep (p.map sbytes)) (pre, false) = (pre ++ (insItems p as).1.map itemV, (insItems p as).2)
+  | [], pre => by simp [insItems]
+  | a :: r, pre => by
+    have hne : (p.map sbytes).isEmpty = false := by cases p <;> simp_all
+    cases hs : isSkip (convert a)
+    · simp only [List.foldl_cons, attrStep, hne, hs, Bool.not_false, Bool.and_self, if_true]
+      rw [attrFold_true]
+      simp [insItems, hs, itemV, List.map_map, Function.comp_def, List.append_assoc]
+    · simp only [List.foldl_cons, attrStep, hs, Bool.not_true, Bool.and_false, Bool.false_eq_true, if_false]
+      rw [attrFold_false p hp r]
+      simp [insItems, hs, itemV, List.append_assoc]
+
+/-- **withAttrsSpec_is_ins**: the fields `WithAttrs` hands to `core.With`, and whether it clears the pending groups, are
+    the model's `addAttrs` (`Slog.ins` over the converted attributes) -/
+theorem withAttrsSpec_is_ins (pending : List String) (as : List SAttr) :
+    ∃ items : List (String ⊕ SAttr),
+      (withAttrsSpec (pending.map sbytes) as).1 = items.map itemV ∧
+      (addAttrs ⟨[], pending⟩ (converts as)).ctx = items.map itemF ∧
+      (addAttrs ⟨[], pending⟩ (converts as)).pending = (if (withAttrsSpec (pending.map sbytes) as).2 then [] else pending) := by
+  by_cases hp : pending = []
+  · subst hp
+    refine ⟨as.map .inr, ?_, ?_, ?_⟩
+    · simp [withAttrsSpec, attrFold_nil, itemV, List.map_map, Function.comp_def]
+    · simp [addAttrs, converts_eq_map, itemF, List.map_map, Function.comp_def]
+    · simp [addAttrs, withAttrsSpec, attrFold_nil]
+  · obtain ⟨h1, h2⟩ := insItems_is_ins pending as
+    have hne : pending.isEmpty = false := by cases pending <;> simp_all
+    refine ⟨(insItems pending as).1, ?_, ?_, ?_⟩
+    · simp [withAttrsSpec, attrFold_false pending hp]
+    · simp [addAttrs, hne, h1]
+    · simp only [addAttrs, hne, withAttrsSpec, attrFold_false pending hp, ← h2]
+      cases (insItems pending as).2 <;> simp
 
 @[simp] theorem ext_skip (P : Par) : ext P "zap.Skip" [] = some [skipV] := id rfl
 @[simp] theorem ext_ctor2 (P : Par) (k p : Val) :
